@@ -128,8 +128,10 @@ impl<T: Alignment> Write for AlignedCursor<T> {
         }
 
         let cap = self.vec.len().saturating_mul(std::mem::size_of::<T>());
-        let rem = cap - self.pos;
-        if rem < len {
+        // `len <= usize::MAX - self.pos`, so this cannot overflow. Note that the
+        // position can be beyond the capacity (and an empty write still extends the
+        // data up to the current position, as in `std::io::Cursor`).
+        if self.pos + len > cap {
             self.vec.resize(
                 (self.pos + len).div_ceil(std::mem::size_of::<T>()),
                 T::default(),
